@@ -118,7 +118,8 @@ main(int argc, char** argv)
       if (zix_path_is_relative(s) != p.is_relative()) printf(" SPEC-FAIL:is_relative");
       const ZixStringView vs[8] = {rn, rd, rp, rel, par, fn, st, ext};
       for (const ZixStringView& v : vs) {
-        if (v.length && (v.data < s || v.data + v.length > s + len)) printf(" SPEC-FAIL:view-not-a-slice");
+        // every view, the empty ones too, is a slice of the argument: [data, data+length) lies within [s, s+len]
+        if (!v.data || v.data < s || v.data + v.length > s + len) printf(" SPEC-FAIL:view-not-a-slice");
       }
       // --- what libstdc++ says, for the cross-check of the Lean transcription of the standard
       printf("\nstd rd=%s rel=%s par=%s fn=%s st=%s ext=%s it=%s\n", hexs(p.root_directory().string() .empty() ? "" : "/").c_str(),
